@@ -86,6 +86,7 @@ def finish(prop, tier, seed, results, reg, table, wall, timeout_ms):
     lines = []
     violations = []
     known_printed = []
+    auto_undecided = []
     rdir = os.path.join(VERIF, "replays" if os.environ.get("PYVC_REPO", "/repo") == "/repo" else "replays_scratch", prop)
     for r, o in refuted:
         match = None
@@ -122,6 +123,14 @@ def finish(prop, tier, seed, results, reg, table, wall, timeout_ms):
         rel = os.path.relpath(path, VERIF)
         if native.get("reproduced"):
             lines.append("VIOLATION property=%s replay=%s" % (prop, rel))
+        elif r.get("auto_reads"):
+            # the function reads a field that no contract knows (auto-declared): the solver's counterexample may put a value
+            # there that the real code never stores.  Without a natively failing input this is undecided, not a violation.
+            o2 = dict(o)
+            o2["reason"] = "refuted only under arbitrary values of the field(s) outside the contracts %s; no failing input found " \
+                           "natively (replay %s)" % (", ".join(r["auto_reads"]), rel)
+            auto_undecided.append(o2)
+            continue
         else:
             lines.append("VIOLATION property=%s replay=%s no-failing-input-found" % (prop, rel))
         violations.append({"unit": o["unit"], "obligation": o["name"], "replay": rel,
@@ -165,7 +174,7 @@ def finish(prop, tier, seed, results, reg, table, wall, timeout_ms):
                                    "reproduced_natively": True, "solver": "unknown (native search found the input)"})
                 continue
         still_unknown.append(o)
-    unknown = still_unknown
+    unknown = still_unknown + auto_undecided
     # ---- units the engine could not execute symbolically (construct outside the subset) whose source
     #      differs from the recorded baseline: the bounded native search decides; otherwise UNDECIDED
     still_unsupported = []
